@@ -117,6 +117,34 @@ def build_jax(cfg, fresh=False):
                                           cutoff=tuple(s["cutoff"]), loglogslope=tuple(s["slope"]),
                                           renormalize_amplitude=bool(cfg["renorm"]), prefix="s%d" % i,
                                           non_parametric_kind=cfg["np_kind"])
+        elif h["do"] == "bad_add":    # a call with invalid arguments: must raise and leave the maker untouched
+            sb = cfg["spaces"][h["i"]]
+            kw = dict(fluctuations=tuple(sb["flu"]), loglogavgslope=tuple(sb["slope"]), flexibility=t2(sb.get("flex")),
+                      asperity=t2(sb.get("asp")), prefix="s%d" % h["i"], non_parametric_kind=cfg["np_kind"])
+            mk = dict(scale=tuple(sb["flu"]), cutoff=tuple(sb.get("cutoff", [1.0, 0.1])), loglogslope=tuple(sb["slope"]),
+                      renormalize_amplitude=bool(cfg["renorm"]), prefix="s%d" % h["i"], non_parametric_kind=cfg["np_kind"])
+            shp = tuple(h.get("shape", sb["shape"]))
+            dst = tuple(h.get("dist", sb["dist"]))
+            how = h["how"]
+            try:
+                if how == "flex_scalar":
+                    m.add_fluctuations(shp, distances=dst, **dict(kw, flexibility=0.5))
+                elif how == "bad_kind":
+                    m.add_fluctuations(shp, distances=dst, **dict(kw, non_parametric_kind="pwr"))
+                elif how == "flu_scalar":
+                    m.add_fluctuations(shp, distances=dst, **dict(kw, fluctuations=3.0))
+                elif how == "bad_harmonic_type":
+                    m.add_fluctuations(shp, distances=dst, harmonic_type="fourrier", **kw)
+                elif how == "matern_scale_scalar":
+                    m.add_fluctuations_matern(shp, distances=dst, **dict(mk, scale=2.0))
+                elif how == "matern_bad_kind":
+                    m.add_fluctuations_matern(shp, distances=dst, **dict(mk, non_parametric_kind="pwr"))
+                else:
+                    raise KeyError(how)
+            except (TypeError, ValueError):
+                pass
+            else:
+                raise AssertionError("invalid arguments (%s) were accepted" % how)
         elif h["do"] == "read":       # derived quantities read in between (must not freeze anything)
             w = h["what"]
             if w == "amplitude":
@@ -176,6 +204,25 @@ def build_classic(cfg, fresh=False):
                 m.add_fluctuations_matern(sp, scale=tuple(s["flu"]), cutoff=tuple(s["cutoff"]),
                                           loglogslope=tuple(s["slope"]), prefix="s%d" % i,
                                           adjust_for_volume=bool(cfg.get("adjust", True)))
+        elif h["do"] == "bad_add":
+            sb = cfg["spaces"][h["i"]]
+            sp = ift.RGSpace(tuple(h.get("shape", sb["shape"])), tuple(h.get("dist", sb["dist"])))
+            kw = dict(fluctuations=tuple(sb["flu"]), flexibility=t2(sb.get("flex")) or (1.0, 0.1),
+                      asperity=t2(sb.get("asp")), loglogavgslope=tuple(sb["slope"]), prefix="s%d" % h["i"])
+            how = h["how"]
+            try:
+                if how in ("flex_scalar", "bad_kind", "bad_harmonic_type"):
+                    m.add_fluctuations(sp, **dict(kw, flexibility=(-1.0, 0.1)))          # ValueError
+                elif how == "flu_scalar":
+                    m.add_fluctuations(sp, **dict(kw, fluctuations=(1.0,)))               # TypeError
+                elif how in ("matern_scale_scalar", "matern_bad_kind"):
+                    m.add_fluctuations(sp, **dict(kw, flexibility=None, asperity=(0.3, 0.1)))  # ValueError
+                else:
+                    raise KeyError(how)
+            except (TypeError, ValueError):
+                pass
+            else:
+                raise AssertionError("invalid arguments (%s) were accepted" % how)
         elif h["do"] == "read":
             w = h["what"]
             if w == "amplitude":
@@ -417,7 +464,40 @@ def fixed_cfgs():
         dict(co, model="npa", spaces=[sp3], np_kind="power", conv=CONVS[0], seed=37, offset_std=None,
              history=[{"do": "add", "i": 0}, A, rd("normalized"), rd("finalize"), off(0.3, None)]),
     ]
-    return histories + classic_only + [
+    def bad(i, how, **kw):
+        return dict({"do": "bad_add", "i": i, "how": how}, **kw)
+    ad0, ad1 = {"do": "add", "i": 0}, {"do": "add", "i": 1}
+    retry = [
+        # a rejected call (invalid arguments) followed by the corrected call on the same maker
+        dict(base, model="npa", spaces=[sp], np_kind="power", conv=CONVS[0], seed=41, history=[Bt, bad(0, "flex_scalar"), ad0]),
+        dict(base, model="npa", spaces=[sp, sp2], np_kind="power", conv=CONVS[1], seed=42,
+             history=[Bt, ad0, bad(1, "bad_kind", shape=[4], dist=[1.0]), ad1]),
+        dict(base, model="npa", spaces=[sp2], np_kind="amplitude", conv=CONVS[0], seed=43,
+             history=[bad(0, "flu_scalar", shape=[4, 4], dist=[0.5, 0.5]), Bt, bad(0, "bad_harmonic_type"), ad0]),
+        dict(base, model="matern", spaces=[mt, mt2], np_kind="amplitude", conv=CONVS[1], seed=44,
+             history=[Bt, bad(0, "matern_scale_scalar"), ad0, bad(1, "matern_bad_kind"), ad1]),
+    ]
+    # grids with three axes, and products of three and four sub-grids
+    sp3d = {"shape": [2, 2, 2], "dist": [0.5, 1.0, 0.25], "flu": [1.1, 0.2], "slope": [-2.5, 0.3], "flex": [1.0, 0.2], "asp": [0.3, 0.05]}
+    sp3i = {"shape": [4, 2, 2], "dist": [0.5, 0.5, 0.5], "flu": [0.9, 0.2], "slope": [-2.0, 0.3], "flex": [0.7, 0.2], "asp": None}
+    mt3d = {"shape": [2, 4, 2], "dist": [1.0, 0.5, 2.0], "flu": [1.2, 0.2], "slope": [-3.0, 0.3], "cutoff": [0.9, 0.1]}
+    mtf3 = {"shape": [3, 2, 3], "dist": [0.7, 1.3, 0.4], "flu": [0.8, 0.2], "slope": [-2.0, 0.3], "cutoff": [1.1, 0.1]}
+    sp4 = {"shape": [4], "dist": [0.25], "flu": [0.6, 0.1], "slope": [-1.5, 0.3], "flex": None, "asp": None}
+    mtb = {"shape": [2], "dist": [1.0], "flu": [0.9, 0.1], "slope": [-2.5, 0.3], "cutoff": [0.8, 0.1]}
+    mtc = {"shape": [2], "dist": [0.25], "flu": [0.5, 0.1], "slope": [-1.5, 0.3], "cutoff": [1.5, 0.1]}
+    mtd = {"shape": [3], "dist": [0.6], "flu": [0.7, 0.1], "slope": [-2.0, 0.3], "cutoff": [1.0, 0.1]}
+    multi = [
+        dict(base, model="npa", spaces=[sp3d], np_kind="power", conv=CONVS[0], seed=51),
+        dict(base, model="npa", spaces=[sp3i], np_kind="power", conv=CONVS[1], seed=52),
+        dict(base, model="matern", spaces=[mt3d], np_kind="amplitude", conv=CONVS[1], seed=53),
+        dict(base, model="matern", spaces=[mtf3], np_kind="amplitude", conv=CONVS[0], seed=54),
+        dict(base, model="npa", spaces=[sp3d], np_kind="amplitude", conv=CONVS[0], seed=55),
+        dict(base, model="matern", spaces=[mtb, mt, mt2], np_kind="amplitude", conv=CONVS[0], seed=56),
+        dict(base, model="npa", spaces=[sp, sp2, sp4], np_kind="power", conv=CONVS[1], seed=57),
+        dict(base, model="matern", spaces=[mtb, mtc, mt, mtb], np_kind="amplitude", conv=CONVS[1], seed=58),
+        dict(base, model="matern", spaces=[mtd, mtb, mtd], np_kind="power", renorm=True, conv=CONVS[0], seed=59),
+    ]
+    return histories + retry + multi + classic_only + [
         dict(base, model="npa", spaces=[sp], np_kind="power", conv=CONVS[0], seed=11),
         dict(base, model="npa", spaces=[sp, sp2], np_kind="power", conv=CONVS[1], seed=12),
         dict(base, model="matern", spaces=[mt], np_kind="amplitude", conv=CONVS[0], seed=13),
@@ -450,6 +530,16 @@ def observe(cfg, which):
              "xi": xi.tolist(), "y": y.reshape(-1).tolist(), "namps": [a.tolist() for a in im.normalized_expanded()],
              "amps": [(a.tolist(), m.tolist(), float(v)) for (a, m, p, v) in im.amplitudes()],
              "mean_resp": L.reshape(-1, L.shape[-1]).mean(axis=0).tolist()}
+        # |k| of every harmonic cell as the implementation sees it (for the independent mode-length check)
+        kl = []
+        for i in range(len(cfg["spaces"])):
+            if which == "jax":
+                hg = im.jm.fluctuations[i].grid.harmonic_grid
+                kl.append(np.asarray(hg.mode_lengths, dtype=float)[np.asarray(hg.power_distributor)].reshape(-1).tolist())
+            else:
+                ps = im.cm.fluctuations[i].target[0]
+                kl.append(np.asarray(ps.k_lengths, dtype=float)[np.asarray(ps.pindex)].reshape(-1).tolist())
+        o["klen"] = kl
         if which == "jax" and cfg["model"] == "matern":
             o["matern"] = [{"scl": float(a.scale(im.pos)), "ctf": float(a.cutoff(im.pos)), "slp": float(a.loglogslope(im.pos)),
                             "k": np.asarray(a.grid.harmonic_grid.mode_lengths, dtype=float).tolist()}
@@ -542,6 +632,20 @@ def direct_failures(o, other=None):
             w = float((rho[1:] * amp[1:] ** 2).sum())
             if rel(w, fls[s] ** 2 * vol ** 2) > TOL:
                 out.append(("normalisation", "sum m_k A_k^2 = %r but flu^2 V^2 = %r" % (w, fls[s] ** 2 * vol ** 2)))
+    # mode lengths: |k| of cell (j_1..j_d) is sqrt(sum_a (min(j_a, n_a - j_a) / (n_a d_a))^2), from the grid alone
+    for s, kimpl in enumerate(o.get("klen", [])):
+        sp = cfg["spaces"][s]
+        k2 = np.zeros(sp["shape"])
+        for a, (nn, d) in enumerate(zip(sp["shape"], sp["dist"])):
+            j = np.arange(nn)
+            ka = np.minimum(j, nn - j) / (nn * d)
+            shp = [1] * len(sp["shape"])
+            shp[a] = nn
+            k2 = k2 + (ka ** 2).reshape(shp)
+        kref = np.sqrt(k2).reshape(-1)
+        kimpl = np.array(kimpl)
+        if kimpl.shape != kref.shape or np.abs(kimpl - kref).max() > 1e-10 * max(1.0, kref.max()):
+            out.append(("mode_lengths", "sub-domain %d: harmonic mode lengths are not |k| of the grid %r" % (s, sp["shape"])))
     # documented Matern parametrisation: amplitude (kind 'amplitude') resp. power (kind 'power') spectrum
     # a / (1 + (k/b)^2)^(-c/4); un-renormalised amplitude = scale * sqrt(V) * spectrum, renormalised: same shape
     for s, mp in enumerate(o.get("matern", [])):
